@@ -209,9 +209,16 @@ def run(res, replay=None, visit_only=False):
                     if w[0] in ("getf", "getb", "ginfo", "dinfo"):
                         script.append(op)
                         script.append(" ".join([{"getf": "getft", "getb": "getbt", "ginfo": "ginfot", "dinfo": "dinfot"}[w[0]]] + w[1:]))
+                # visiting a set yields every declared choice, in schema order, with its own bit (name-based visit_set
+                # and tag-based sbepp::visit alike; the driver flags a difference between the two)
+                import c02
+                for (cop, gop, choices) in c02.set_choice_ops(s, m, vtree_as_tree(v)):
+                    if gop in script:
+                        script.append(cop)
+                        crexp[len(script) - 1] = (script.index(gop), choices)
             names = expected_names(s, m, v)
             jobs.append((m, v, buf, script, len(img), names, len(mlines), len(ilines), cvexp, crexp))
-            mlines += [model_msg_line(s, m), "buf " + hx(buf)] + [(x.replace("curt ", "cur ", 1) if x.startswith("curt ") else x) if not x.startswith("cvisit") else "use x" for x in script]
+            mlines += [model_msg_line(s, m), "buf " + hx(buf)] + [(x.replace("curt ", "cur ", 1) if x.startswith("curt ") else x) if not x.startswith(("cvisit", "getfc")) else "use x" for x in script]
             ilines += ["use " + m.name, "buf " + hx(buf)] + script
         mout = model.run(mlines)
         for (cxx, std), exe in mc.exes.items():
@@ -255,6 +262,16 @@ def run(res, replay=None, visit_only=False):
                             bad = ("cursor-range", "`%s`: entries/cursor `%s`, expected `%s` (random-access entry addresses)" % (op, b2, want))
                         elif a != b2:
                             bad = ("cursor-range-model", "`%s`: implementation `%s`, CursorRange model `%s`" % (op, b2, a))
+                    elif op.startswith("getfc"):
+                        gi_, choices = crexp[j]
+                        raw = int(mout[mo + 2 + gi_]) & ((1 << 64) - 1)
+                        want = ",".join("%s:%d" % (n_, (raw >> i_) & 1) for n_, i_ in choices)
+                        outcome_dist["set_visits"] = outcome_dist.get("set_visits", 0) + 1
+                        if len(choices) > 1 and [n_ for n_, _ in choices] != sorted(n_ for n_, _ in choices):
+                            outcome_dist["set_visits_unsorted_names"] = outcome_dist.get("set_visits_unsorted_names", 0) + 1
+                        if b2 != want:
+                            bad = ("set-visit", "`%s`: visiting the set reported `%s`, the declared choices with their bits "
+                                   "are `%s`" % (op, b2[:200], want[:200]))
                     elif op.startswith("cvisit"):
                         if b2 != cvexp[j]:
                             bad = ("composite-visit", "`%s`: visit_children of the composite reported members `%s`, the schema's "
